@@ -1,10 +1,10 @@
 # table consumed by mkmanifest.py
 claim("C03", "other",
       "Decides the five structural conditions that make a task executor's result independent of the schedule - the schedule quantifier is removed because no rule looks at an interleaving: "
-      "(a) same submissions as the sequential reference (per stage the set of wrapper applications with the origin of every argument, level interval, guard, list-builder and mapper calls); "
+      "(a) same submissions as the sequential reference (per stage the set of wrapper applications with the origin of every argument, level interval, guard, list-builder and mapper calls) and same walk (control skeleton of the group cursors: loop / branch conditions, which cursor each branch advances); "
       "(b) the dependencies each task declares cover the memory blocks its wrapper calls read/write (effects derived from the wrapper's kernel-call slots and the container classes); "
       "(c) nothing a deferred task dereferences can be dead: firstprivate lists, lambda closures, stage-function frames; (d) the kernel is selected by the executing worker's id inside the task, the per-worker vector is grown before submission, the shared wrapper has no mutable state; "
-      "(e) task-creating stage functions run only inside the joining region of execute(). quick: both OpenMP executors. thorough: + both Specx executors (same rules on task lambdas / SpRead / SpCommutativeWrite) and both StarPU executors (codelet table vs submission, pack/unpack agreement, callback effects vs access modes, handle slot vs block and level, join, per-worker kernel) through declaration-only stub headers. "
+      "(e) task-creating stage functions run only inside the joining region of execute(). quick: both OpenMP executors. thorough: + both Specx executors (same rules on task lambdas / SpRead / SpCommutativeWrite) and both StarPU executors (codelet table vs submission, pack/unpack agreement, callback effects vs access modes, handle slot vs block and level, handle index advancing in lock-step with its group iterator, join, per-worker kernel) through declaration-only stub headers. "
       "Numerical equality 'to rounding' for non-additive kernels and the behaviour of the real Specx/StarPU runtimes are not decided.",
       "Trusted: clang 14 front end + tbfscan, OpenMP data-sharing semantics as implemented by g++ 12 (closure reached through firstprivate(__closure): -fdump-tree-omplower + ASan replay), the operator role table; Specx/StarPU semantics as documented (stubs only declare names).",
       "capture-lifetime / dependence-vs-effect / submission-summary rules over the clang AST (libTooling)", "DESIGN.md §2 C03, §8")
@@ -61,10 +61,10 @@ claim("C02", "other",
       "slot-level role-coherence, level/role origin analysis and array-fill idiom rules over the clang AST", "DESIGN.md §2 C02")
 
 claim("C06", "other",
-      "Four structural clauses: (1) zero state - group memory is allocated only in TbfMemoryBlock::resetBlocksFromSizes and on every path the memset of the allocation lies between the (re)allocation decision and item construction, group constructors size every block through it; "
+      "Five structural clauses: (1) zero state - group memory is allocated only in TbfMemoryBlock::resetBlocksFromSizes and on every path the memset of the allocation lies between the (re)allocation decision and item construction, group constructors size every block through it; "
       "(2) no narrowing on the copy path - a witness with real=float, data=double(/long double) through constructor, rebuild, export and target/source trees compiled with -Wconversion must be silent under src/core and src/containers; "
       "(3) execution cannot alter symbolic data - a probe kernel instantiated through the sequential, OpenMP, target/source and periodic top-tree executors sees headers as const and particle data as pointers to const at every operator, and shipped kernels cast const away only into const callee parameters; "
-      "(4) a curve index is never converted twice in an ordering class with Morton<->curve converters. The position->leaf arithmetic (floor, clamping, rounding) and uniqueness are value-level and not decided. Particle *indices* are handed to L2P/P2P as `long*` by the wrapper; shipped kernels take them const - noted, not claimed.",
+      "(4) a curve index is never converted twice in an ordering class with Morton<->curve converters; (5) copy provenance in the group constructor: sorted slot p stores getParticleIndex(p) as original index and row positions[getParticleIndex(p)][v] as value v - index and data of one particle stay together. The position->leaf arithmetic (floor, clamping, rounding) and uniqueness are value-level and not decided. Particle *indices* are handed to L2P/P2P as `long*` by the wrapper; shipped kernels take them const - noted, not claimed.",
       "Trusted: clang 14 + tbfscan, g++ -Wconversion as narrowing oracle, g++/clang++ for the probe witness.",
       "must-pass-through / who-may-allocate rules, -Wconversion witness, type-level probe kernel, curve-domain typing", "DESIGN.md §2 C06")
 
@@ -76,11 +76,14 @@ claim("C20", "proof",
       "algebraic normal form (sympy) of the per-pair update + loop-shape rule", "DESIGN.md §2 C20")
 
 claim("C11", "other",
-      "Two agreement clauses over both shipped ordering classes and the kernels that consume the codes: (1) every site that builds or splits a relative-position code (21 sites: inline encoders of the list builders, helper encoders/decoders, self-list encoder, the rotation kernel's and the uniform handler's closed-form table indices) is reduced to (base, offset, digit order) and all agree on (7,3)/(3,1) with dimension 0 most significant, decoders exist for each base and use the same triple (so decode inverts encode), the upper-half filter is floor(3^Dim/2) < code; "
-      "(2) parent/child/child-code/upper-bound shifts all use the class's Dim and no code outside the ordering classes and the 3-D kernels shifts or masks an index by a literal dimension (positive-control fixture). "
-      "Bijection, geometric containment of children and list = definition for every cell are value-level and NOT decided; in particular the Hilbert ordering's tree-height-driven automaton (parents do not contain their children above the leaf level) is outside these clauses and is recorded as an observation in DESIGN.md.",
-      "Trusted: clang 14 + tbfscan, sympy expansion of closed forms, the convention table {7:3, 3:1, dim0 first} read from the decoders.",
-      "codec extraction (base, offset, digit order) + shift-width agreement over the clang AST", "DESIGN.md §2 C11")
+      "Four clauses over both shipped ordering classes and the kernels that consume the codes: (1) every site that builds or splits a relative-position code (21 sites: inline encoders of the list builders, helper encoders/decoders, self-list encoder, the rotation kernel's and the uniform handler's closed-form table indices) is reduced to (base, offset, digit order) and all agree on (7,3)/(3,1) with dimension 0 most significant, decoders exist for each base and use the same triple (so decode inverts encode), the upper-half filter is floor(3^Dim/2) < code; "
+      "(2) the level upper bound folds to 2^(level*Dim) for every level and Dim 1..4, and no code outside the ordering classes and the 3-D kernels shifts or masks an index by a literal dimension (positive-control fixture); "
+      "(3) sibling agreement: Morton and Hilbert list builders / coordinate clamp have equal behavioural atoms, per-cell and per-group builders share limits, wrap shifts, too-close test, child loop and level guards; "
+      "(4) bit provenance, by abstract interpretation of the conversion functions for Dim = 1..4 over a per-bit provenance domain: index bit k*Dim+Dim-1-d is a copy of bit k of coordinate d and nothing else for every coordinate bit whose index fits 63 bits, the decoder is the inverse move, parent = drop the low Dim bits, child code = the low Dim bits, child = parent:code (Hilbert: the same around its two table conversions, which stay opaque) - hence bijection below the 63-bit range, parent coordinates = child coordinates >> 1 and code = octant FOR EVERY INPUT of the Morton ordering; "
+      "termination of the data-dependent loops is proven by the same run (range-aware comparisons) or refuted by constant-folding the function on a boundary input that provably cycles. "
+      "NOT decided: that the lists equal their definition for every cell (the 3^Dim / 2^Dim enumeration), and the Hilbert tables themselves - in particular the tree-height-driven automaton (parents do not contain their children above the leaf level) is recorded as an observation in DESIGN.md. Known finding: getUpperBound(level) is 2^63 = LONG_MIN when level*Dim = 63.",
+      "Trusted: clang 14 + tbfscan, sympy expansion of closed forms, the convention table {7:3, 3:1, dim0 first} read from the decoders, the bit-provenance interpreter (rules/bitdep.py: two's-complement 64-bit / 32-bit int semantics, data-dependent loops followed for at most 256 turns).",
+      "codec extraction + per-bit provenance abstract interpretation (termination proven / refuted by constant folding) + sibling atoms over the clang AST", "DESIGN.md §2 C11, §8.8")
 
 claim("C14", "other",
       "Three agreement clauses: (1) the addresses of the item-count and offset tables computed by the writer (resetBlocksFromSizes) and by the reader of a raw byte buffer (initHeader) are equal as polynomials in (allocated size, NbBlocks, sizeof(long)), the tables are adjacent, do not overlap and end at the allocation end, the allocation is payload + both tables, block pointers are base + recorded offset in both, offsets are the running sum of block sizes; "
@@ -117,8 +120,15 @@ claim("C16", "other",
 _todo = "check not built yet in this round (see DESIGN.md §7 build order)"
 for p in []:
     NA[p] = _todo
-NA["C01"] = "exactly-once is a counting statement over all particle sets, heights, dimensions and groupings; no lint/effect/type argument bounds the list-builder arithmetic. Structural prerequisites are decided under C02/C03/C08/C11/C12."
+claim("C01", "other",
+      "Exactly-once is a counting law over all particle sets and tree shapes; which cells the list builders enumerate (the 3^Dim / 2^Dim arithmetic) and that the shared cursor is right in the first place are value-level and NOT decided. Decided are five structural necessary conditions, each visible in the shape of the code on every path: "
+      "(1) in every executor (sequential, OpenMP, single tree and target/source; thorough: Specx, StarPU) the upward pass M2M and the downward pass L2L pair child groups with parent groups by the same cursor - loop and branch conditions, which cursor each branch advances, where the operator is applied - and P2M / L2P walk leaf and particle groups in the same lock-step; "
+      "(2) inside a group pair the wrapper's M2M and L2L share start position, advance, child-counter reset and flush of the last parent (roles derived from the start-position lookups); "
+      "(3) a list builder appends each interaction to exactly one of (in-group, out-of-group): the appends are the then / else sides of one branch, same object, out-of-group side not filtered further; "
+      "(4) the group mapper sorts its list by SrcFirst (source index primary key) before the first binary search, every search over the list compares that key only, both mapper variants have the same control skeleton; "
+      "(5) per single-tree executor stage the in-group half (.first) goes to the in-group wrapper and the out-of-group half (.second) to the mapper, both from the same builder call.",
+      "Trusted: clang 14 + tbfscan; origin descriptors of stages.FnModel. Sibling skeletons are compared exactly: a one-sided or near-match difference is a violation, two restructured siblings are exit 2 (no verdict).",
+      "control-skeleton agreement of sibling walks + partition / sort-before-search / routing rules over the clang AST", "DESIGN.md §8.7")
 NA["C04"] = "bound on a floating-point truncation error over all positions/heights/orders: nothing about it is visible in the shape of the code (accumulate clause is under C08, code conventions under C11)."
 NA["C05"] = "bound on a floating-point interpolation error; its batching clause is the accumulate/recompute rule decided under C08."
 NA["C07"] = "run-time data-structure invariant established by loops over run-time data for every occupancy pattern; no separable structural clause."
-NA["C16_old"] = "correctness of two nested binary searches over run-time contents; the only structural relation (search key = ordering key) is inseparable from C07."
